@@ -384,6 +384,21 @@ func (w *streamReader) Read(p []byte) (n int, err error) {
 	return
 }
 
+// bodyReader remembers the error, other than io.EOF, that reading the
+// request body failed with.
+type bodyReader struct {
+	r   io.Reader
+	err error
+}
+
+func (b *bodyReader) Read(p []byte) (n int, err error) {
+	n, err = b.r.Read(p)
+	if err != nil && err != io.EOF {
+		b.err = err
+	}
+	return
+}
+
 // Do made the request and returns a io.Reader that translates the data read
 // from fcgi responder out of fcgi packet before returning it.
 func (c *FCGIClient) Do(p map[string]string, req io.Reader) (r io.Reader, err error) {
@@ -399,7 +414,13 @@ func (c *FCGIClient) Do(p map[string]string, req io.Reader) (r io.Reader, err er
 
 	body := newWriter(c, Stdin)
 	if req != nil {
-		_, _ = io.Copy(body, req)
+		src := &bodyReader{r: req}
+		_, _ = io.Copy(body, src)
+		if src.err != nil {
+			// the body is incomplete: do not end the stream, or the
+			// responder would take what it got for the whole body
+			return nil, src.err
+		}
 	}
 	body.Close()
 
